@@ -25,6 +25,7 @@ type Engine struct {
 	AsmFuncs   map[string]*AsmFunc // "pkgpath.name" -> parsed assembly
 	Overlay    map[string][]byte
 	LoadErrors []string
+	Excluded   []string // harness files left out because they do not type-check against this tree
 
 	fnInfoMap sync.Map
 
@@ -66,12 +67,19 @@ func overlayFiles(repo, harnessDir string, includeTests bool) (map[string]string
 }
 
 func LoadEngine(repo, harnessDir string) (*Engine, error) {
+	return loadEngine(repo, harnessDir, nil)
+}
+
+func loadEngine(repo, harnessDir string, exclude map[string]bool) (*Engine, error) {
 	ov, err := overlayFiles(repo, harnessDir, false)
 	if err != nil {
 		return nil, err
 	}
 	overlay := map[string][]byte{}
 	for virt, real := range ov {
+		if exclude[virt] {
+			continue
+		}
 		b, err := os.ReadFile(real)
 		if err != nil {
 			return nil, err
@@ -95,6 +103,28 @@ func LoadEngine(repo, harnessDir string) (*Engine, error) {
 			e.LoadErrors = append(e.LoadErrors, er.Error())
 		}
 	})
+	if len(e.LoadErrors) > 0 && len(exclude) == 0 {
+		// A harness file may no longer type-check against a changed tree (a renamed internal). Drop the offending harness
+		// files and try once more: the obligations of the other files can still be decided.
+		bad := map[string]bool{}
+		for _, msg := range e.LoadErrors {
+			for virt := range ov {
+				if strings.Contains(msg, virt+":") {
+					bad[virt] = true
+				}
+			}
+		}
+		if len(bad) > 0 && len(bad) < len(ov) {
+			e2, err2 := loadEngine(repo, harnessDir, bad)
+			if err2 == nil {
+				for v := range bad {
+					e2.Excluded = append(e2.Excluded, filepath.Base(v))
+				}
+				sort.Strings(e2.Excluded)
+				return e2, nil
+			}
+		}
+	}
 	if len(e.LoadErrors) > 0 {
 		sort.Strings(e.LoadErrors)
 		return e, fmt.Errorf("package load errors: %s", strings.Join(e.LoadErrors, "; "))
